@@ -35,6 +35,10 @@ def cases(tier, seed):
     for k in range(n2):
         out.append(dict(level=2, extended=bool(k % 2), cycles=300 if tier == "quick" else 900, density=[0.08, 0.2, 0.5, 0.9][k % 4],
                         seed="C20/2/%d/%d" % (seed, k), name="L2-%s-%d" % ("ext" if k % 2 else "basic", k), cost=10))
+    n3 = 6 if tier == "quick" else 30
+    for k in range(n3):
+        out.append(dict(level=3, extended=bool(k % 2), cycles=200 if tier == "quick" else 600, density=[0.05, 0.1, 0.3][k % 3],
+                        clk=[50e6, 100e6, 200e6][k % 3], seed="C20/3/%d/%d" % (seed, k), name="L3-phy-%s-%d" % ("ext" if k % 2 else "basic", k), cost=20))
     return out
 
 
@@ -318,7 +322,25 @@ def run_level2(c):
             self.submodules.pipe = CommandsPipeline(adapters, cs_ser_width=NPH, ca_ser_width=NPH, ca_nbits=6, cmd_nphases_span=4,
                                                     extended_overlaps_check=c["extended"])
 
-    dut = DUT()
+    class PHYDUT(Module):
+        """level 3: the complete LPDDR4PHY command path, observed at its unserialized `.out` CS/CA words"""
+        def __init__(self):
+            from litedram.phy.lpddr4.basephy import LPDDR4PHY
+            from litedram.phy.lpddr4.simphy import LPDDR4SimulationPads
+            from litedram.phy.utils import Latency
+            pads = LPDDR4SimulationPads()
+            self.submodules += pads
+            self.submodules.phy = LPDDR4PHY(pads, sys_clk_freq=c.get("clk", 50e6), ser_latency=Latency(sys=1), des_latency=Latency(sys=2),
+                                            phytype="VerifLPDDR4", masked_write=True, extended_overlaps_check=c["extended"])
+            self.dfi = self.phy.dfi
+
+            class _P:
+                pass
+            self.pipe = _P()
+            self.pipe.cs = self.phy.out.cs
+            self.pipe.ca = self.phy.out.ca
+
+    dut = PHYDUT() if c.get("level") == 3 else DUT()
     sent = []      # (slot, cmd, bank, addr)
     cs_stream, ca_stream = [], []
     state = dict(done=False)
@@ -467,15 +489,16 @@ def run_level2(c):
               overlap_distances_seen=sorted(dists), over_suppressed=len(over_suppressed))
     nontrivial = len(decoded) >= 100 and (dists >= {1, 2, 3} or c["density"] < 0.1)
     return dict(verdict="violated" if v else "held", violations=v[:10], stats=st, nontrivial=bool(nontrivial) or bool(v),
-                signature="L2|%s|%s|%s" % (c["extended"], c["density"], c["seed"]))
+                signature="L%d|%s|%s|%s" % (c["level"], c["extended"], c["density"], c["seed"]))
 
 
 def run_case(c):
-    return run_level1(c) if c["level"] == 1 else run_level2(c)
+    return run_level1(c) if c["level"] == 1 else run_level2(c)      # level 3 reuses the level-2 oracle on the PHY's outputs
 
 
 def aggregate(results, cases):
     tot = dict(l1_commands_decoded=0, l2_sent=0, l2_decoded=0, l2_suppressed_by_rule=0, l2_over_suppressed=0)
+    tot["level3_phy_cases"] = sum(1 for c in cases if c.get("level") == 3)
     types = {}
     for r in results:
         st = r.get("stats") or {}
